@@ -3381,10 +3381,22 @@ class CppEmitter(Visitor):
         ``fpy::borrow`` interop helper), which cannot bind a ``const``
         reference.
         """
-        if param is None or self.unbox is None:
+        if param is None:
             return emitted
         want = param.ty
         have = self._storage_or_none(e)
+        if self.unbox is None:
+            # Every list keeps its handle, so there is no representation to
+            # adapt -- but a callee whose own stores widened its parameter's
+            # element type still declares a different `std::vector`
+            # instantiation than the caller holds, and that must be refused
+            # here exactly as it is when unboxing is on.
+            if (
+                isinstance(have, CppList) and isinstance(want, CppList)
+                and have.elt != want.elt
+            ):
+                raise self._refuse_mismatch(have, want, e)
+            return emitted
         if not (isinstance(have, CppList) and isinstance(want, CppList)):
             self._require_bridgeable(have, want, e)
             return emitted
